@@ -553,7 +553,7 @@ func minimiseAndConfirm(r *RunResult, env *Env, scratch string) (string, int) {
 	fmt.Printf("minimised %d -> %d steps (%d candidate executions)\n", len(s.Steps), len(final.Steps), tries)
 	// fresh-process confirmation; fallbacks: the unminimised script, then the unminimised script preceded by the
 	// runs the worker process had executed before it (process-global state)
-	confirm := func(p string) (bool, string) {
+	confirmOnce := func(p string) (bool, bool, string) {
 		self, _ := os.Executable()
 		outb, err := exec.Command(self, "replay", p).CombinedOutput()
 		code := 0
@@ -562,7 +562,33 @@ func minimiseAndConfirm(r *RunResult, env *Env, scratch string) (string, int) {
 		} else if err != nil {
 			code = 2
 		}
-		return code == 1 && strings.Contains(string(outb), "REPLAY-OK"), tail(string(outb), 600)
+		exact := code == 1 && strings.Contains(string(outb), "REPLAY-OK")
+		sameClass := code == 1 && (exact || strings.Contains(string(outb), "REPLAY-SAME-CLASS"))
+		return exact, sameClass, tail(string(outb), 600)
+	}
+	// A violation that reproduces only in some fresh-process replays means the implementation itself behaves
+	// nondeterministically on this script (e.g. Go map iteration order reaching state): it is still reported, with
+	// the count, because the same script and seed then produce both outcomes.
+	confirm := func(p string) (bool, string) {
+		hits, last := 0, ""
+		for i := 0; i < 4; i++ {
+			exact, same, out := confirmOnce(p)
+			last = out
+			if exact {
+				if i > 0 {
+					fmt.Printf("note: the violation reproduced only in attempt %d of fresh-process replay: the implementation is nondeterministic on this script\n", i+1)
+				}
+				return true, out
+			}
+			if same {
+				hits++
+			}
+		}
+		if hits > 0 {
+			fmt.Printf("note: %d of 4 fresh-process replays show the same violation class with a different trace: the implementation is nondeterministic on this script\n", hits)
+			return true, last
+		}
+		return false, last
 	}
 	if ok, _ := confirm(path); ok {
 		return path, 1
